@@ -49,7 +49,7 @@ func runC06(r *an.Run) {
 		})
 
 	r.Obl("secret-stored-only-if-consistent", "GUARD",
-		"AddNextEntry writes the bucket and decrements the index only after the loop over all lower buckets ended, and the loop continues only when the new element derives to a value equal to the stored bucket (derive ok and isEqual true)",
+		"AddNextEntry writes the bucket and decrements the index only after the loop over all lower buckets ended, and the loop continues only when the new element derives to a value equal to the stored bucket (derive ok and isEqual true); the element under test is {index: store.index, hash: *hash}, its bucket is countTrailingZeros of that index, derive is called once on the new element for the index of bucket i, isEqual once on the derived element against bucket i, the loop variable is advanced by the loop header only, and the new element itself is what is written to its bucket",
 		"a secret inconsistent with earlier ones must be rejected, otherwise later lookups return wrong secrets", 4,
 		func(o *an.Obl) {
 			f := p.Func("shachain.RevocationStore.AddNextEntry")
@@ -101,6 +101,7 @@ func runC06(r *an.Run) {
 					o.FailAt(f.ID+"#index-step", s.Where(), "the store index must move by exactly one per accepted secret: %s", an.Text(s.Node))
 				}
 			}
+			c06ConsistencyOperands(o, f, writes)
 		})
 
 	r.Obl("no-narrowing-of-index-arithmetic", "BOUND",
@@ -188,7 +189,7 @@ func runC06(r *an.Run) {
 		})
 
 	r.Obl("release-only-after-durable-commitment", "PATH",
-		"revoke_and_ack is built only in generateRevocation (callers: RevokeCurrentCommitment with currentHeight, ProcessChanSyncMsg with local tail - 1); RevokeCurrentCommitment returns the message only after channelState.UpdateCommitment succeeded; the retransmission path only re-sends a height below the durable local tail",
+		"revoke_and_ack is built only in generateRevocation (callers: RevokeCurrentCommitment with currentHeight as it is before the height is advanced, ProcessChanSyncMsg with local tail - 1); generateRevocation copies into the message's Revocation field exactly once, the secret of the height it was asked for, and sets NextRevocationKey once, from the secret at that height + 2; RevokeCurrentCommitment returns the message only after channelState.UpdateCommitment succeeded; the retransmission path only re-sends a height below the durable local tail",
 		"a secret handed out before the newer peer-signed commitment is durable lets a crash revert to a state whose secret is already public", 6,
 		func(o *an.Obl) {
 			f := p.Func(lw + "LightningChannel.RevokeCurrentCommitment")
@@ -223,6 +224,32 @@ func runC06(r *an.Run) {
 					} else if a[0] != want {
 						o.FailAt(fn.Root().ID+"#released-height", s.Where(), "%s releases the secret of height %s, expected %s", fn.Root().ID, a[0], want)
 					}
+					// `$recv.currentHeight` names the field: it is the height
+					// to revoke only as long as it was not advanced yet
+					for _, w := range c04FieldWritesBefore(fn, lw+"LightningChannel", "currentHeight", s) {
+						o.FailAt(fn.Root().ID+"#height-written-before-release", w.Where(), "%s changes currentHeight (%s) before it asks for the revocation of %s", fn.Root().ID, an.Text(w.Node), a[0])
+					}
+					c04OperandsNotOverwritten(o, fn, s.Node.(*ast.CallExpr).Args[0], "released height")
+				}
+			}
+			c06RevocationMessage(o, p, "release")
+			// every reference to the generator is one of those direct calls: a
+			// method value (`gen := lc.generateRevocation; gen(h)`) would release
+			// a height none of the argument rules above sees
+			nRefs, nCalls := map[string]int{}, map[string]int{}
+			for _, ref := range p.RefsTo(p.Method("lnwallet", "LightningChannel", "generateRevocation"), false) {
+				if ref.Fn != nil {
+					nRefs[ref.Fn.ID]++
+				}
+			}
+			for _, fn := range p.Funcs(false, "lnwallet") {
+				if fn.Lit == nil {
+					nCalls[fn.ID] = len(fn.Calls(an.CalleeIs(lw+"LightningChannel.generateRevocation"), true))
+				}
+			}
+			for id, k := range nRefs {
+				if k != nCalls[id] {
+					o.FailAt(id+"#generator-as-value", "", "%s refers to generateRevocation %d times but calls it directly %d times: the generator is taken as a function value", id, k, nCalls[id])
 				}
 			}
 			g := p.Func(lw + "LightningChannel.ProcessChanSyncMsg")
@@ -239,7 +266,7 @@ func runC06(r *an.Run) {
 	revocationAcceptance(r)
 
 	r.Obl("own-chain-indexes", "ROLE",
-		"every call of the local revocation producer's AtIndex outside tests is one of the tabled sites and asks for the index its role requires: 0 when the channel is created; 1 for the second commitment point of channel_ready; the current height for the unrevoked commitment (restore, anchor resolutions, channel_reestablish); current height + 1 for the next revocation key and the commitment being received; the revoked height and that height + 2 in generateRevocation; the peer's reported tail - 1 when proving data loss; the force-closed / broadcast state number for the close summaries; the nonce target height for musig2",
+		"every call of the local revocation producer's AtIndex outside tests is one of the tabled sites and asks for the index its role requires: 0 when the channel is created; 1 for the second commitment point of channel_ready; the current height for the unrevoked commitment (restore, anchor resolutions, channel_reestablish); current height + 1 for the next revocation key and the commitment being received; the revoked height (for the released secret) and then that height + 2 (for the next revocation key) in generateRevocation, each height parameter as it was passed in; the peer's reported tail - 1 when proving data loss; the force-closed / broadcast state number for the close summaries; the nonce target height for musig2",
 		"a point or secret taken at another index repeats or skips an element of the derivation chain the peer holds us to", 15,
 		func(o *an.Obl) {
 			want := map[string][]string{
@@ -259,10 +286,16 @@ func runC06(r *an.Run) {
 			}
 			got := map[string][]string{}
 			for _, f := range p.Funcs(false) {
-				for _, s := range f.Calls(an.CalleeIs("shachain.Producer.AtIndex"), false) {
+				if an.Short(f.Pkg.PkgPath) == "shachain" {
+					continue // the producer's own implementation
+				}
+				// through the interface or through the concrete producer
+				for _, s := range f.Calls(an.CalleeIs("shachain.Producer.AtIndex", "shachain.RevocationProducer.AtIndex"), false) {
 					a := f.ArgCanon(s)
 					o.Site("%s index=%s", s.String(), a[0])
 					got[f.Root().ID] = append(got[f.Root().ID], a[0])
+					// `$pN` names the parameter, not its value on entry
+					c04OperandsNotOverwritten(o, f, s.Node.(*ast.CallExpr).Args[0], "revocation chain index")
 				}
 			}
 			for fn, idx := range got {
@@ -271,10 +304,10 @@ func runC06(r *an.Run) {
 					o.FailAt(fn+"#untabled-AtIndex", "", "%s derives an element of our revocation chain at %v; the site is not in the table", fn, idx)
 					continue
 				}
+				// in source order: the first request of generateRevocation is
+				// the secret it releases, the second the next point it announces
 				g := append([]string{}, idx...)
-				sortStrings(g)
 				ww := append([]string{}, w...)
-				sortStrings(ww)
 				if strings.Join(g, " | ") != strings.Join(ww, " | ") {
 					o.FailAt(fn+"#AtIndex", "", "%s asks the revocation producer for index %v, its role requires %v", fn, g, ww)
 				}
@@ -284,6 +317,7 @@ func runC06(r *an.Run) {
 					o.FailAt(fn+"#AtIndex-missing", "", "%s no longer derives from the revocation producer", fn)
 				}
 			}
+			c06RevocationMessage(o, p, "roles")
 		})
 }
 
